@@ -176,3 +176,347 @@ func H_C08_endings() {
 	vReach("ended")
 	_ = fmt.Sprint
 }
+
+func init() {
+	vReg("H_C07_faults", H_C07_faults)
+	vReg("H_C09_ids", H_C09_ids)
+	vReg("H_C09_ids3", H_C09_ids3)
+	vReg("H_C11_stop", H_C11_stop)
+	vReg("H_C12_orders", H_C12_orders)
+	vReg("H_C17_ready", H_C17_ready)
+}
+
+const (
+	fltHandlerPanic = iota // concurrently dispatched operation
+	fltStartTLSPanic
+	fltUnbindPanic
+	fltDefaultPanic
+	fltReadReset
+	fltMalformed
+	fltWriteFail
+	fltAcceptTemp
+	fltKinds
+)
+
+// C07: a fault on one connection / request never takes the server down.
+func H_C07_faults() {
+	vSchedFork(1)
+	fault := vLen("fault", fltKinds-1)
+	v := vNewSrv()
+	served := map[string]int{}
+	var mu sync.Mutex
+	ok := func(w *ResponseWriter, r *Request) {
+		err := w.Write(r.NewResponse(WithResponseCode(ResultSuccess), WithApplicationCode(ApplicationDelResponse)))
+		mu.Lock()
+		if err == nil {
+			served[fmt.Sprint(r.ConnectionID())]++
+		}
+		mu.Unlock()
+	}
+	boom := func(w *ResponseWriter, r *Request) { panic("handler panic") }
+	// connection 1 is the victim, connection 2 the bystander; Delete is served normally, Add panics
+	vAssume(v.mux.Delete(ok) == nil && v.mux.Add(boom) == nil)
+	vAssume(v.mux.ExtendedOperation(boom, ExtendedOperationStartTLS) == nil)
+	vAssume(v.mux.Unbind(boom) == nil)
+	vAssume(v.mux.DefaultRoute(boom) == nil)
+	c1, c2 := vNetConn("c1"), vNetConn("c2")
+	switch fault {
+	case fltHandlerPanic:
+		vConnFeed(c1, vWire(refEnvelope(1, refApp(ApplicationAddRequest, refOctet("cn=u"), refSeq()), nil)))
+		vConnFeed(c1, vWire(refEnvelope(2, refDeleteOp(), nil)))
+	case fltStartTLSPanic:
+		vConnFeed(c1, vWire(refEnvelope(1, refStartTLSOp(), nil)))
+	case fltUnbindPanic:
+		vConnFeed(c1, vWire(refEnvelope(1, refUnbindOp(), nil)))
+	case fltDefaultPanic:
+		vConnFeed(c1, vWire(refEnvelope(1, refApp(ApplicationModifyRequest, refOctet("cn=u"), refSeq()), nil)))
+	case fltReadReset:
+		vConnFeedErr(c1, "read: connection reset by peer")
+	case fltMalformed:
+		vConnFeed(c1, refMalformed(1))
+	case fltWriteFail:
+		vConnSet(c1, "writeFail", true)
+		vConnFeed(c1, vWire(refEnvelope(1, refDeleteOp(), nil)))
+	}
+	vConnFeed(c2, vWire(refEnvelope(1, refDeleteOp(), nil)))
+	vConnFeedBlock(c2) // the bystander stays connected
+	vEnvAccept(c1)
+	if fault == fltAcceptTemp {
+		vEnvAcceptTempErr()
+	}
+	v.goRun()
+	vQuiesce()
+	vAssertE(vCrashed() == 0, "no goroutine dies with an unrecovered panic")
+	vAssertE(!v.ranRun, "Run keeps running after the fault")
+	// a new client connects after the fault and is served correctly
+	vEnvAccept(c2)
+	vQuiesce()
+	vAssertE(vCrashed() == 0, "no goroutine dies with an unrecovered panic (bystander phase)")
+	vAssertE(!v.ranRun, "Run still accepts after the fault")
+	mu.Lock()
+	byst := 0
+	for k, n := range served {
+		if k != "1" {
+			byst += n
+		}
+	}
+	vAssertE(byst == 1, "the bystander connection is accepted and receives its response")
+	mu.Unlock()
+	vAssertE(vConnWrites(c2) == 1, "exactly one response frame reaches the bystander")
+	vAssertE(vConnClosed(c2) == 0, "the bystander connection stays open")
+	if fault != fltAcceptTemp && fault != fltHandlerPanic {
+		vAssertE(vConnClosed(c1) == 1, "the faulty connection is closed")
+	}
+	if fault == fltHandlerPanic {
+		mu.Lock()
+		vAssertE(served["1"] == 1, "other requests of the connection whose handler panicked are still answered")
+		mu.Unlock()
+	}
+	vReach("faults")
+}
+
+// C09: connection IDs are unique, positive and stable.
+func H_C09_ids()  { vIDs(1) }
+func H_C09_ids3() { vIDs(2) }
+
+func vIDs(extra int) {
+	vSchedFork(1)
+	v := vNewSrv()
+	var mu sync.Mutex
+	seen := map[string][]int{} // conn name (by message id) -> ConnectionIDs reported
+	hf := func(w *ResponseWriter, r *Request) {
+		mu.Lock()
+		k := fmt.Sprint(r.message.GetID() / 10)
+		seen[k] = append(seen[k], r.ConnectionID())
+		mu.Unlock()
+	}
+	vAssume(v.mux.Delete(hf) == nil)
+	K := 1 + vLen("extraConns", extra)
+	conns := []string{"c1", "c2", "c3"}
+	var ncs []interface{}
+	for i := 0; i < K; i++ {
+		nc := vNetConn(conns[i])
+		nreq := 1 + vLen(fmt.Sprintf("extraReq%d", i), 1)
+		for j := 0; j < nreq; j++ {
+			vConnFeed(nc, vWire(refEnvelope(int64(10*(i+1)+j), refDeleteOp(), nil)))
+		}
+		vEnvAccept(nc)
+		ncs = append(ncs, nc)
+	}
+	v.goRun()
+	vQuiesce()
+	v.goStop()
+	vQuiesce()
+	mu.Lock()
+	defer mu.Unlock()
+	used := map[int]bool{}
+	for i := 0; i < K; i++ {
+		ids := seen[fmt.Sprint(i+1)]
+		vAssertE(len(ids) >= 1, "every connection's requests were served")
+		for _, id := range ids {
+			vAssertE(id == ids[0], "all requests of one connection report the same ConnectionID")
+			vAssertE(id > 0, "ConnectionID is positive")
+		}
+		if len(ids) > 0 {
+			vAssertE(!used[ids[0]], "no two connections share an ID")
+			used[ids[0]] = true
+		}
+	}
+	v.mu.Lock()
+	vAssertE(len(v.closes) == K, "OnClose once per connection")
+	closed := map[int]bool{}
+	for _, id := range v.closes {
+		vAssertE(used[id] && !closed[id], "OnClose receives exactly the IDs the connections' requests reported")
+		closed[id] = true
+	}
+	v.mu.Unlock()
+	vReach("ids")
+}
+
+const (
+	stNone = iota
+	stIdle
+	stTLSPending
+	stPipelining
+	stNotReading
+	stKinds
+)
+
+// C11: Stop returns whatever clients are doing; Run then returns nil.
+func H_C11_stop() {
+	state := vLen("state", stKinds-1)
+	withReadTimeout := vBool("readTimeout")
+	var opts []Option
+	if withReadTimeout {
+		opts = append(opts, WithReadTimeout(time.Second))
+	}
+	v := vNewSrv(opts...)
+	vAssume(v.mux.Delete(func(w *ResponseWriter, r *Request) {
+		_ = w.Write(r.NewResponse(WithResponseCode(ResultSuccess)))
+	}) == nil)
+	var runOpts []Option
+	nc := vNetConn("c1")
+	switch state {
+	case stIdle:
+		vConnFeedBlock(nc)
+		vEnvAccept(nc)
+	case stTLSPending:
+		runOpts = append(runOpts, WithTLSConfig(vTLSConfig()))
+		vConnSet(nc, "tlsPending", true)
+		vEnvAccept(nc)
+	case stPipelining:
+		for i := 0; i < 3; i++ {
+			vConnFeed(nc, vWire(refEnvelope(int64(i+1), refDeleteOp(), nil)))
+		}
+		vConnFeedBlock(nc)
+		vEnvAccept(nc)
+	case stNotReading:
+		vConnSet(nc, "writeBlock", true)
+		vConnFeed(nc, vWire(refEnvelope(1, refDeleteOp(), nil)))
+		vConnFeedBlock(nc)
+		vEnvAccept(nc)
+	}
+	v.goRun(runOpts...)
+	vQuiesce()
+	v.goStop()
+	second := vBool("secondStop")
+	if second {
+		go func() {
+			_ = v.s.Stop()
+			vEvent("Stop2.return")
+		}()
+	}
+	vQuiesce()
+	vAssertE(v.ranStop, "Stop returns without any client action")
+	vAssertE(v.ranRun && v.runErr == nil, "Run returns nil after Stop")
+	if second {
+		vAssertE(vEvents("h:Stop2.return", "") == 1, "a concurrent second Stop returns too")
+	}
+	vReach("stopped")
+}
+
+const (
+	ordBeforeRun = iota
+	ordAfterListen
+	ordAfterAccept
+	ordDuringTraffic
+	ordKinds
+)
+
+// C12: when Stop and Run have both returned the server is quiescent.
+func H_C12_orders() {
+	vSchedFork(1)
+	order := vLen("order", ordKinds-1)
+	v := vNewSrv()
+	hgate, cgate := vGate("handler"), vGate("onclose")
+	slowOnClose := vBool("slowOnClose")
+	// replace the recorder by one that can be slow
+	v.s.onCloseHandler = func(id int) {
+		vEvent("OnClose.enter", id)
+		if slowOnClose {
+			vGateWait(cgate)
+		}
+		v.mu.Lock()
+		v.closes = append(v.closes, id)
+		v.mu.Unlock()
+		vEvent("OnClose.exit", id)
+	}
+	slowHandler := vBool("slowHandler")
+	vAssume(v.mux.Delete(func(w *ResponseWriter, r *Request) {
+		vEvent("handler.enter", r.ID)
+		if slowHandler {
+			vGateWait(hgate)
+		}
+		_ = w.Write(r.NewResponse(WithResponseCode(ResultSuccess)))
+		vEvent("handler.exit", r.ID)
+	}) == nil)
+	nc := vNetConn("c1")
+	vConnFeed(nc, vWire(refEnvelope(1, refDeleteOp(), nil)))
+	twice := vBool("stopTwice")
+	switch order {
+	case ordBeforeRun:
+		vAssertE(v.s.Stop() == nil, "Stop before Run is harmless")
+		vEvent("Stop.return")
+		v.ranStop = true
+		vEnvAccept(nc)
+		v.goRun()
+	case ordAfterListen:
+		vEnvAcceptCall(func() { v.goStop() })
+		vEnvAccept(nc)
+		v.goRun()
+	case ordAfterAccept:
+		vEnvAccept(nc)
+		v.goRun()
+		v.goStop()
+	case ordDuringTraffic:
+		vEnvAccept(nc)
+		v.goRun()
+		vQuiesce()
+		v.goStop()
+	}
+	vQuiesce()
+	vGateOpen(hgate)
+	vGateOpen(cgate)
+	vQuiesce()
+	if twice {
+		vAssertE(v.s.Stop() == nil, "calling Stop again is harmless")
+	}
+	vAssertE(v.ranStop, "Stop returned")
+	vAssertE(v.ranRun && v.runErr == nil, "Run returned nil")
+	vAssertE(vEnvListenerOpen() == 0, "the listening socket is closed once Stop and Run have returned")
+	vAssertE(vEnvListeners() == 1, "Run listened once")
+	vAssertE(vBlockedThreads() == 0, "no goroutine is left")
+	v.mu.Lock()
+	vAssertE(len(v.closes) == vEvents("accept", "c1"), "every accepted connection was reported via OnClose")
+	v.mu.Unlock()
+	vAssertE(vConnClosed(nc) == vEvents("accept", "c1"), "every accepted connection was closed")
+	vReach("orders")
+}
+
+// C17: Ready is true only while the server is really listening.
+func H_C17_ready() {
+	vSchedFork(1)
+	v := vNewSrv()
+	addrs := []string{"127.0.0.1:10389", "[::1]:10389", "localhost:10389", ":10389", "::1:10389", "127.0.0.1", "[::1]", "[::1:10389", "300.1.1.1:389", "127.0.0.1:"}
+	ai := vLen("addr", len(addrs)-1)
+	vEnvSet("listenErr", vBool("listenFails"))
+	vEnvSet("resolves", vBool("hostResolves"))
+	nc := vNetConn("c1")
+	vConnFeed(nc, vWire(refEnvelope(1, refDeleteOp(), nil)))
+	served := false
+	vAssume(v.mux.Delete(func(w *ResponseWriter, r *Request) { served = true }) == nil)
+	polled := vLen("polls", 2)
+	for i := 0; i < polled; i++ {
+		go func() {
+			r := v.s.Ready()
+			vEvent("ready", r)
+			if r {
+				// from the moment Ready() == true is observed (until Stop) the socket is bound
+				vAssertE(vEnvListenerOpen() == 1, "Ready() == true only while the listening socket is bound")
+			}
+		}()
+	}
+	go func() {
+		v.runErr = v.s.Run(addrs[ai])
+		v.ranRun = true
+		vEvent("Run.return")
+	}()
+	vQuiesce()
+	if v.ranRun {
+		// Run could not validate the address or listen
+		vAssertE(v.runErr != nil, "Run returns an error when it cannot listen")
+		vAssertE(!v.s.Ready(), "Ready never becomes true when Run fails")
+		vAssertE(vEnvListenerOpen() == 0, "nothing is left listening")
+		vReach("run failed")
+	} else {
+		vAssertE(v.s.Ready(), "Ready is true once Run is accepting")
+		vAssertE(vEnvListenerOpen() == 1, "listening")
+		vEnvAccept(nc)
+		vQuiesce()
+		vAssertE(served, "a connection attempt made while Ready() is true is served")
+		v.goStop()
+		vQuiesce()
+		vAssertE(v.ranRun && v.runErr == nil, "Run returns nil after Stop")
+		vReach("run ok")
+	}
+}
